@@ -71,7 +71,10 @@ namespace detail
 			if(Value == 0)
 				return -1;
 
-			return glm::bitCount(~Value & (Value - static_cast<genIUType>(1)));
+			// Subtract on the unsigned type: Value - 1 overflows for the most negative value of a signed type
+			typedef typename detail::make_unsigned<genIUType>::type UT;
+			UT const Pattern = static_cast<UT>(Value);
+			return glm::bitCount(static_cast<genIUType>(~Pattern & (Pattern - static_cast<UT>(1))));
 		}
 	};
 
